@@ -598,3 +598,38 @@ def languages_intersect(A: Auto, B: Auto) -> Optional[str]:
                         return w + c
                     st.append((a2, b2))
     return None
+
+
+def not_included(R: Auto, A: Auto, limit: int = 200000) -> Optional[str]:
+    """A word of L(R) that is not in L(A) (full matches, END-accepting), or
+    None when L(R) is a subset of L(A).  R must be filter-free apart from END
+    acceptance (it is a reference grammar written without look-arounds); A is
+    determinised on the fly."""
+    from collections import deque
+
+    useR = R.useful()
+    start = (None, frozenset([None]))
+    seen = {start: ""}
+    dq = deque([start])
+    if R.accepts_at(None, END) and not A.accepts_at(None, END):
+        return ""
+    n = 0
+    while dq:
+        r, S = dq.popleft()
+        w = seen[(r, S)]
+        n += 1
+        if n > limit:
+            raise AnalysisError("inclusion check exceeded its state budget")
+        for c in sorted(R.out_chars(r)):
+            S2 = frozenset(q for s in S for q in A.step(s, c))
+            for r2 in R.step(r, c):
+                if r2 not in useR:
+                    continue
+                k = (r2, S2)
+                if k in seen:
+                    continue
+                seen[k] = w + c
+                if R.accepts_at(r2, END) and not any(A.accepts_at(s, END) for s in S2):
+                    return w + c
+                dq.append(k)
+    return None
